@@ -332,6 +332,8 @@ class Heap:
             # while the collector sleeps every barrier form is specified (and shown by the barrier tables for every
             # pre-state) to do nothing: one representative keeps the construction of heaps cheap
             return ["write"]
+        if k == "s":
+            return ["write", "bwd_child", "fwd", "fwd_any", "stash"]
         return ["write", "bwd_child", "fwd", "fwd_any"]
 
     def path_label(self, path, h, c, k):
@@ -340,13 +342,34 @@ class Heap:
                 "write": "Gc::write(%s) [backward barrier, no child]; store %s pointer to #%d" % (self.nm(h), kind, c),
                 "bwd_child": "backward_barrier%s(%s, #%d); store" % ("" if k == "s" else "_weak", self.nm(h), c),
                 "fwd": "forward_barrier%s(Some(%s), #%d); store" % ("" if k == "s" else "_weak", self.nm(h), c),
-                "fwd_any": "forward_barrier%s(None, #%d); store in %s" % ("" if k == "s" else "_weak", c, self.nm(h))}[path]
+                "fwd_any": "forward_barrier%s(None, #%d); store in %s" % ("" if k == "s" else "_weak", c, self.nm(h)),
+                "stash": "DynamicRootSet::stash(set = %s, #%d) [the set object holds the stashed pointer while a handle exists]" % (
+                    self.nm(h), c)}[path]
 
     def barrier(self, g, st, h, c, k, path):
         """Interpret the barrier call of a sanctioned adoption path on state st. Returns outcomes."""
         cx = self.m.ctx_ref()
         if path == "root_barrier":
             return self.run(g, "context::Context::root_barrier", [cx], st)
+        if path == "stash":
+            # the set object is h; the slot table itself is C14's business (slot tables, handle pairing): here the
+            # recording of the pointer is an event and the barrier discipline of stash is what is interpreted
+            def slot_add(ip, st_, args, info):
+                st_.event("cell_store", "Slots::add")
+                return [(st_, "ret", TOP)]
+            st.mem[("set",)] = adt("dynamic_roots::DynamicRootSet", 0, (gc(h),))
+            ip = self.m.ip
+            old, old_l = ip.prims.get("dynamic_roots::Slots::add"), ip.lenient_std
+            ip.prims["dynamic_roots::Slots::add"] = slot_add
+            ip.lenient_std = True
+            try:
+                return self.run(g, "dynamic_roots::DynamicRootSet::stash", [ref(("set",), ()), cx, gc(c)], st)
+            finally:
+                ip.lenient_std = old_l
+                if old is None:
+                    ip.prims.pop("dynamic_roots::Slots::add", None)
+                else:
+                    ip.prims["dynamic_roots::Slots::add"] = old
         if path == "write":
             return self.run(g, "context::Mutation::backward_barrier", [cx, gc(h), none()], st)
         if path == "bwd_child":
